@@ -19,7 +19,11 @@ func main() {
 	if len(os.Args) < 2 {
 		usage()
 	}
+	initProperties()
 	switch os.Args[1] {
+	case "manifest":
+		writeManifest()
+		return
 	case "rules":
 		var ns []string
 		for n := range rules {
